@@ -394,6 +394,12 @@ def rand_base(rng):
     for o in own:
         pos.insert(rng.randint(0, len(pos)), o)
     units += pos
+    if cmd and rng.random() < 0.25:  # a global option that is not a switch; bare --verbose goes where no plain token follows
+        g = rng.choice(["--verbose", "--verbose", "--verbose=2"])
+        nn0 = sum(1 for u in units if u["k"] == "name")
+        spots = [p for p in range(nn0, len(units) + 1) if g != "--verbose" or p == len(units) or units[p]["k"] not in ("pos", "name")]
+        if spots:
+            units.insert(rng.choice(spots), U("glob", g))
     if cmd and cmd != "grp" and rng.random() < 0.45:
         units.append(U("dd", "--"))
         for _ in range(rng.choice([0, 0, 1, 2])):
@@ -402,8 +408,10 @@ def rand_base(rng):
 
 
 def bare_v_ok(units):
+    """-v and --verbose take an optional value: they are not put directly before a plain token"""
     for i, u in enumerate(units[:-1]):
-        if u["k"] == "sw" and u["t"] == ["-v"] and units[i + 1]["k"] in ("pos", "name"):
+        if ((u["k"] == "sw" and u["t"] == ["-v"]) or (u["k"] == "glob" and u["t"] == ["--verbose"])) \
+                and units[i + 1]["k"] in ("pos", "name"):
             return False
     return True
 
